@@ -100,7 +100,12 @@ accumulators and their committed-scalar encoding, proving keys without copy
 constraints, `filecoin_srs`): C04-3, C06-3, C06-4, C08-3, C15-3, C17-3, C17-5,
 C20-2, C20-5; (i) *oracles weaker than the property* — round trips compared
 byte for byte where the property speaks of behaviour, mismatched batches only
-required not to crash: C17-4, C15-5.
+required not to crash: C17-4, C15-5; (j) *defects that need several cells
+changed together* — a dropped constraint that every single fault still trips
+over (the lookup or the recomposition gate rejects it) and that a search from
+the output cannot reach: engine S5, C07-6; (k) *checks that read more than
+they should* — an accumulator check that consults map entries it has no use
+for, a fixed column queried at a rotation: C15-6, C20-6.
 
 | id | property | change | needs | caught by |
 |----|----------|--------|-------|-----------|
